@@ -177,7 +177,7 @@ NextViews(v0s, e, st0, st1) ==
 (* whether what was issued in the last step was fresh                      *)
 (***************************************************************************)
 NoGhost == [pids |-> <<>>, eids |-> <<>>, aids |-> <<>>, uuids |-> {}, fresh |-> TRUE,
-            lastPose |-> <<>>, poseOrdered |-> TRUE, synced |-> TRUE]
+            lastPose |-> <<>>, poseOrdered |-> TRUE, synced |-> TRUE, gone |-> <<>>, noPoseAfterDelete |-> TRUE]
 GetOr(f, k, d) == IF k \in DOMAIN f THEN f[k] ELSE d
 ByUuid(st, u)  == {s \in DOMAIN st.sess : st.sess[s].uuid = u}
 
@@ -209,6 +209,16 @@ NextGhost(g, e, st0, st1, v0s, v1s) ==
        aids  |-> [u \in (DOMAIN g.aids) \cup us |-> GetOr(g.aids, u, {}) \cup aidsNow(st1, u)],
        fresh |-> fresh,
        lastPose |-> lp1,
+       \* per observer: the entities whose deletion it has been told about (relay, or the answer to its own request)
+       \* since it is in this session; ids are not reissued, so no pose relay may name one of them again
+       gone |-> [c \in Conns |->
+                   IF st1.conns[c].sid = 0 \/ st1.conns[c].sid # st0.conns[c].sid \/ st1.conns[c].pid # st0.conns[c].pid
+                      \/ Has(e.out[c], {"JOIN_RESPONSE"}) THEN {}       \* (a new session can come under the same id and pid)
+                   ELSE GetOr(g.gone, c, {})
+                        \cup {e.out[c][i].eid : i \in {j \in DOMAIN e.out[c] : e.out[c][j].t = "ENTITY_DELETE_BROADCAST"}}
+                        \cup (IF c = e.conn /\ Has(e.out[c], {"ENTITY_DELETE_RESPONSE"}) /\ "eid" \in DOMAIN e.req THEN {e.req.eid} ELSE {})],
+       noPoseAfterDelete |-> \A c \in Conns : \A i \in DOMAIN e.out[c] :
+                                e.out[c][i].t = "POSE_BROADCAST" => e.out[c][i].eid \notin GetOr(g.gone, c, {}),
        \* every pose relay is newer than the previous one for that observer and entity
        \* (origin timestamp 0 = the run carries no timestamps, e.g. the exhaustive model)
        poseOrdered |-> \A c \in Conns :
@@ -516,6 +526,8 @@ Ok_C11 ==
     /\ ~(Proc /\ Rq.k = "Pose") => \A d \in Conns : ~Has(ev.out[d], {"POSE_BROADCAST"})
     \* per observer and entity the relayed updates arrive in the order they were sent
     /\ gh.poseOrdered
+    \* no pose is relayed for an entity once its deletion has been relayed to that observer
+    /\ gh.noPoseAfterDelete
 
 (***************************************************************************)
 (* C12  entity components behave as a map keyed by (type, entity)          *)
